@@ -301,12 +301,14 @@ def check(ctx, run):
     gl = prog.fn(LST + "::getLeakFrom")
     for f in (ca, rn, rt, gt, gl):
         run.analysed(f)
+    LINL = {g.qn for g in prog.functions.values() if g.qn.startswith(LST + "::")}     # helpers of the list are transparent
     for n in range(0, 6 if ctx.thorough else 5):
         for pat in itertools.product((0, 1), repeat=n):
             env = list_env(n, {})
             env[ca.params[0]["name"]] = 7
             ev = Evaluator(prog, ca, env=env)
             ev.heap_mode = True
+            ev.inline = LINL
             ev.pass_object = True
             ev.calls[LST + "::isInPeriod"] = lambda node, period, pat=pat: pat[node - 1] if node and 1 <= node <= len(pat) else None
             try:
@@ -320,6 +322,7 @@ def check(ctx, run):
             # totals and first-from on the same list
             ev = Evaluator(prog, gt, env=dict(list_env(n, {}), **{gt.params[0]["name"]: 7}))
             ev.heap_mode = True
+            ev.inline = LINL
             ev.calls[LST + "::isInPeriod"] = lambda node, period, pat=pat: pat[node - 1] if node and 1 <= node <= len(pat) else None
             try:
                 ev.run_blocks(gt.entry, max_steps=800)
@@ -330,6 +333,7 @@ def check(ctx, run):
             for start in range(0, n + 1):
                 ev = Evaluator(prog, gl, env=dict(list_env(n, {}), **{gl.params[0]["name"]: start, gl.params[1]["name"]: 7}))
                 ev.heap_mode = True
+                ev.inline = LINL
                 ev.calls[LST + "::isInPeriod"] = lambda node, period, pat=pat: pat[node - 1] if node and 1 <= node <= len(pat) else None
                 try:
                     ev.run_blocks(gl.entry, max_steps=800)
@@ -345,6 +349,7 @@ def check(ctx, run):
             for f, removes in ((rn, True), (rt, False)):
                 ev = Evaluator(prog, f, env=dict(list_env(n, {"memory_": mem}), **{f.params[0]["name"]: target}))
                 ev.heap_mode = True
+                ev.inline = LINL
                 try:
                     ev.run_blocks(f.entry, max_steps=800)
                     ret = getattr(ev, "ret", None)
@@ -359,6 +364,7 @@ def check(ctx, run):
     run.analysed(an)
     ev = Evaluator(prog, an, env=dict(list_env(2, {}), **{an.params[0]["name"]: 9}))
     ev.heap_mode = True
+    ev.inline = LINL
     try:
         ev.run_blocks(an.entry)
         got = chain(ev.env)
